@@ -239,7 +239,26 @@ func runC20(c *core.Ctx) {
 			if ta, isTA := ins.(*ssa.TypeAssert); isTA && !ta.CommaOk && ta.X == ssa.Value(f.Params[1]) {
 				isAssert = true
 			}
-			if !(ok && core.StdCallee(&call.Call) == "reflect.TypeOf") && !isAssert {
+			// the library's own Kind(value) compared with the pattern's kind is such a test as well (a typed nil pointer
+			// has the pointer kind); compared with a constant kind other than Invalid / Ptr it is a presence guard itself
+			isKindTest := false
+			if ok {
+				if g := core.Callee(&call.Call); g != nil && core.FuncName(g) == "fpgo.Kind" && len(call.Call.Args) == 1 && core.Resolve(core.Unwrap(call.Call.Args[0])) == ssa.Value(f.Params[1]) {
+					isKindTest = true
+					for _, r := range *call.Referrers() {
+						if b, isB := r.(*ssa.BinOp); isB && (b.Op == token.EQL || b.Op == token.NEQ) {
+							other := b.Y
+							if other == ssa.Value(call) {
+								other = b.X
+							}
+							if k, isK := other.(*ssa.Const); isK && !core.IsIntConst(k, 0) && !core.IsIntConst(k, 22) {
+								isKindTest = false
+							}
+						}
+					}
+				}
+			}
+			if !(ok && core.StdCallee(&call.Call) == "reflect.TypeOf") && !isAssert && !isKindTest {
 				return
 			}
 			n++
@@ -1211,6 +1230,17 @@ func c20isKindCall(v ssa.Value) bool {
 // c20absenceTest: the decided condition is the library's absence test of prm - Maybe.Just(prm).IsNil() /
 // .IsPresent(), or the package-level IsNil(prm) the former is defined by - and says "absent" (true) or "present".
 func c20absenceTest(nrm core.Cond, prm *ssa.Parameter) (absent, ok bool) {
+	// Kind(prm) == K for a constant kind K other than Invalid and Ptr: an untyped nil has the kind Invalid, a (nil)
+	// pointer the kind Ptr, so the value is present
+	if m, isM := core.AsCmp(nrm); isM && m.Op == token.EQL {
+		if kc, isK := m.Y.(*ssa.Const); isK && !core.IsIntConst(kc, 0) && !core.IsIntConst(kc, 22) {
+			if kcall, isKC := core.Resolve(m.X).(*ssa.Call); isKC {
+				if g := core.Callee(&kcall.Call); g != nil && core.FuncName(g) == "fpgo.Kind" && len(kcall.Call.Args) == 1 && core.Resolve(core.Unwrap(kcall.Call.Args[0])) == ssa.Value(prm) {
+					return false, true
+				}
+			}
+		}
+	}
 	call, isC := nrm.V.(*ssa.Call)
 	if !isC {
 		return false, false
